@@ -238,6 +238,8 @@ pub struct IoRec {
     /// Forward jumps of the monotonic clock that were injected.
     #[serde(default)]
     pub clock_jumps: u64,
+    #[serde(default)]
+    pub seeded_entropy_reads: u64,
 }
 
 #[derive(Serialize, Deserialize, Clone, Debug)]
@@ -595,5 +597,7 @@ pub fn io_plan(spec: &ExecSpec, input_id: Option<(u64, u64)>) -> IoPlan {
         stdout_eintr_every: spec.io.stdout_eintr_every,
         clock_jumps: spec.io.clock_jumps,
         stop_at_input_byte: spec.io.stop_at_input_byte,
+        // (hash-table seeds of the run's threads: a function of the schedule seed)
+        entropy_seed: Some(fpsim_rt::rng::mix(&[spec.sched_seed, 0x656e74726f7079])),
     }
 }
